@@ -260,11 +260,20 @@ type Result struct {
 	EngineErrors []string          `json:"engine_errors,omitempty"`
 	Funcs        []FuncInfo        `json:"functions_encoded"`
 	LockEdges    map[string]string `json:"lock_order_edges,omitempty"`
-	Races        map[string]string `json:"races,omitempty"`
+	Races        map[string]*RaceInfo `json:"races,omitempty"`
 	Samples      []PathSample      `json:"samples"`
 	Witnesses    []PathSample      `json:"witnesses,omitempty"`
 	PathCapHit   bool              `json:"path_cap_hit"`
 	Solver       string            `json:"solver"`
+}
+
+type RaceInfo struct {
+	Kind    string            `json:"kind"`
+	Count   int               `json:"count"`
+	Chooses [][2]string       `json:"chooses,omitempty"`
+	Resumes []string          `json:"resumes,omitempty"`
+	Model   map[string]string `json:"model,omitempty"`
+	Events  []string          `json:"events,omitempty"`
 }
 
 type pathOut struct {
@@ -320,7 +329,7 @@ func (e *Engine) explore(fn *ssa.Function) *Result {
 	t0 := time.Now()
 	e.curHarness = fn.Name()
 	e.obligations = map[string]int{}
-	res := &Result{Harness: fn.Name(), TruncWhy: map[string]int{}, Decisions: map[string]int{}, LockEdges: map[string]string{}, Races: map[string]string{}, Solver: e.solverKind}
+	res := &Result{Harness: fn.Name(), TruncWhy: map[string]int{}, Decisions: map[string]int{}, LockEdges: map[string]string{}, Races: map[string]*RaceInfo{}, Solver: e.solverKind}
 	var mu sync.Mutex
 	cond := sync.NewCond(&mu)
 	work := [][]int{{}}
@@ -435,9 +444,12 @@ func (e *Engine) explore(fn *ssa.Function) *Result {
 						res.MaxDecisions = len(w.taken)
 					}
 					for k, v := range w.races {
-						if _, ok := res.Races[k]; !ok {
-							res.Races[k] = v
+						ri := res.Races[k]
+						if ri == nil {
+							ri = &RaceInfo{Kind: v, Chooses: w.chooseLog, Resumes: w.resumes, Events: w.events, Model: w.witnessModel}
+							res.Races[k] = ri
 						}
+						ri.Count++
 					}
 					newCover := false
 					for c := range w.covers {
